@@ -1,8 +1,8 @@
-\* C20: model mutant: module_dfs() as before commit 47cba46; TLC must report B_StartsComplete (diamond)
+\* C20: model mutant: module_dfs() as before commit 47cba46; TLC must report B_StartsComplete (shortest: m1 -> {m2, m3}, m3 -> m2, listed m2, m1; with MaxN = 4 also the diamond)
 SPECIFICATION Spec
 CONSTANTS
     Source = "enum"
-    MaxN = 4
+    MaxN = 3
     SelfLoops = FALSE
     DepOrders = "asc"
     WithMissing = FALSE
